@@ -216,7 +216,11 @@ where
     type Stream = Self;
 
     fn into_parts(self) -> (Vector<VectorDiffContainerStreamElement<S>>, Self::Stream) {
-        (self.buffered_vector.clone(), self)
+        // The next observer must start from what this adapter presents (the limited
+        // view), not from the unlimited buffer.
+        let values = self.buffered_vector.clone().truncate_from_end(self.limit);
+
+        (values, self)
     }
 }
 
